@@ -16,7 +16,7 @@
   `c.sizeCheck = true` is the code after repair 0c66556 (`gen_exit_checks_size` pins it to the source);
   `eq_prefix_counterexample` shows that without that branch `join()` returns early.
 -/
-import Babylon.ExecQ.LemmasInv
+import Babylon.ExecQ.LemmasProgress
 import Babylon.ExecQ.Sched
 
 namespace Babylon.Properties.C16
@@ -344,6 +344,69 @@ theorem eq_refused_recovers (c : Cfg) (hc : c.sizeCheck = true) (s s' : State) (
     have hs := hcov i h1
     refine ⟨hs, ?_⟩
     rcases hq'.conv i h2 hs with ⟨it, h⟩ | h <;> rw [h] <;> rfl
+
+/-! ## No deadlock (the safety form of "join does return") -/
+
+/-- **No deadlock.**  With a capacity of at least 1 and no refused launch outstanding, whenever some
+thread is inside a call (a producer blocked on a full queue, a spinning `join`, …) there is a thread
+that can take a step which is not merely another unsuccessful `join` poll — or an accepted launch is
+waiting for a worker to start it (the executor's own obligation).  So the system never gets stuck with
+work pending: a blocked producer always finds the consumer side able to move, and a `join` that still
+sees `_events ≠ 0` always finds an owner of that episode able to move. -/
+theorem eq_no_deadlock (c : Cfg) (hc : c.sizeCheck = true) (hcap : 0 < c.cap) (s : State) (hr : Reach c s)
+    (hd : s.debt = false) (t : Nat) (hne : s.pc t ≠ .idle) :
+    (∃ u, s.pc u ≠ .idle ∧ Enabled c s u ∧ ¬ (∃ sn, s.pc u = .j0 sn ∧ s.events ≠ 0)) ∨ s.launched = 1 := by
+  obtain ⟨ho, hq, hn, hi⟩ := reach_invB hr
+  have hcv := reach_invC hc hr
+  have own : ∀ u, (s.pc u).owner = true →
+      (∃ u, s.pc u ≠ .idle ∧ Enabled c s u ∧ ¬ (∃ sn, s.pc u = .j0 sn ∧ s.events ≠ 0)) ∨ s.launched = 1 := by
+    intro u hu
+    refine .inl ⟨u, ?_, enabled_owner c s u hu, ?_⟩
+    · intro h; rw [h] at hu; cases hu
+    · rintro ⟨sn, h, _⟩; rw [h] at hu; cases hu
+  have key : s.events ≠ 0 →
+      (∃ u, s.pc u ≠ .idle ∧ Enabled c s u ∧ ¬ (∃ sn, s.pc u = .j0 sn ∧ s.events ≠ 0)) ∨ s.launched = 1 := by
+    intro he
+    rcases (eq_single_consumer c s hr).2.2.2.1 (by omega) with ⟨u, hu⟩ | h
+    · exact own u hu
+    · exact .inr h
+  have self : Enabled c s t → (∀ sn, s.pc t ≠ .j0 sn) →
+      (∃ u, s.pc u ≠ .idle ∧ Enabled c s u ∧ ¬ (∃ sn, s.pc u = .j0 sn ∧ s.events ≠ 0)) ∨ s.launched = 1 :=
+    fun he hj => .inl ⟨t, hne, he, fun ⟨sn, h, _⟩ => hj sn h⟩
+  cases hpc : s.pc t with
+  | idle => exact absurd hpc hne
+  | pTicket v => exact self ⟨.none, by simp [stepThread, hpc]⟩ (by simp [hpc])
+  | pSignal otk => exact self (enabled_signal c s t otk hpc) (by simp [hpc])
+  | pLaunch ev otk => exact own t (by rw [hpc]; rfl)
+  | pRollback ev otk => exact own t (by rw [hpc]; rfl)
+  | c0 k => exact own t (by rw [hpc]; rfl)
+  | cPop k ev got => exact own t (by rw [hpc]; rfl)
+  | cCb k ev b st => exact own t (by rw [hpc]; rfl)
+  | cSize k ev => exact own t (by rw [hpc]; rfl)
+  | cExit k ev => exact own t (by rw [hpc]; rfl)
+  | j0 sn =>
+    by_cases he : s.events = 0
+    · refine .inl ⟨t, hne, ⟨.none, by simp [stepThread, hpc, he]⟩, ?_⟩
+      rintro ⟨_, _, h⟩; exact h he
+    · exact key he
+  | pPublish it tk =>
+    by_cases hlt : tk < s.head + c.cap
+    · exact self (enabled_publish c s t it tk hpc hlt) (by simp [hpc])
+    · -- blocked on a full queue: the head index is taken; its holder or the consumer side can move
+      have htl := (hq.pp t it tk hpc).1
+      have hht : s.head < s.tail := by omega
+      cases hs : s.sig s.head with
+      | true =>
+        apply key
+        intro he
+        have := hcv.cov hd he s.head (Nat.le_refl _)
+        rw [hs] at this; cases this
+      | false =>
+        rcases hq.conv s.head hht hs with ⟨it', h⟩ | h
+        · refine .inl ⟨s.holder s.head, by rw [h]; simp, enabled_publish c s _ it' s.head h (by omega), ?_⟩
+          rintro ⟨sn, h', _⟩; rw [h] at h'; cases h'
+        · refine .inl ⟨s.holder s.head, by rw [h]; simp, enabled_signal c s _ _ h, ?_⟩
+          rintro ⟨sn, h', _⟩; rw [h] at h'; cases h'
 
 /-! ## The branch of repair 0c66556 is necessary -/
 
